@@ -276,7 +276,8 @@ func TestC11(t *testing.T) {
 	col := ev.New("C11", "rapid: each of 24 gadget constructors of pkg/expr/exprtools x width in 1..64 + {127,128,255} + a tenth anywhere in 1..255 "+
 		"(documented limits respected: SignedMul w<=127, MaskBits cnt<=8w, SignExtend bit<8w) x operands that are "+
 		"boundary-biased constants (70%), results of earlier gadgets of the same case (nesting) or symbolic expressions with register/memory loads (30%), of widths equal to "+
-		"or different from w (equal for the gadgets that take signs from operand widths); the gadget tree is evaluated "+
+		"or different from w (equal for the gadgets that take signs from operand widths, except that a quarter of their "+
+		"cases uses operands narrower than w, judged by a weaker oracle accepting the own-width-signed or the zero-extended reading); the gadget tree is evaluated "+
 		"by the math/big evaluator under 2 valuations, and constant-folded when all operands are constants, and "+
 		"compared with a direct two's-complement reference; WidthGadgetArg is checked on gadgets and look-alikes. "+
 		"non-trivial = (gadget, width class, operand sign pattern / special case) cell; distinct cells counted")
@@ -302,9 +303,18 @@ func TestC11(t *testing.T) {
 			}
 			args := make([]expr.Expr, g.arity)
 			allConst := true
+			// Sign-taking gadgets are documented for operands of width w. Operands
+			// NARROWER than w are also exercised (a quarter of the cases), judged by a
+			// weaker oracle: each narrower operand may be read as the signed value of
+			// its own width or as zero-extended; any consistent reading is accepted.
+			narrowMode := g.ownWidth && rapid.IntRange(0, 3).Draw(t, "narrowOperands") == 0
 			for i := range args {
-				args[i] = c11Operand(t, w, g.ownWidth, fmt.Sprintf("a%d", i))
-				if len(built) > 0 && rapid.IntRange(0, 4).Draw(t, fmt.Sprintf("a%d_nested", i)) == 0 {
+				ow := w
+				if narrowMode && w > 1 && rapid.Bool().Draw(t, fmt.Sprintf("a%d_narrow", i)) {
+					ow = expr.Width(rapid.IntRange(1, int(w)-1).Draw(t, fmt.Sprintf("a%d_ow", i)))
+				}
+				args[i] = c11Operand(t, ow, g.ownWidth, fmt.Sprintf("a%d", i))
+				if len(built) > 0 && !narrowMode && rapid.IntRange(0, 4).Draw(t, fmt.Sprintf("a%d_nested", i)) == 0 {
 					if b := built[rapid.IntRange(0, len(built)-1).Draw(t, fmt.Sprintf("a%d_which", i))]; !g.ownWidth || b.Width() == w {
 						args[i] = b
 						col.Class("operand-is-gadget-result")
@@ -334,6 +344,21 @@ func TestC11(t *testing.T) {
 				}
 				want := g.ref(vals, w, k)
 				got := irsem.Eval(e, env)
+				if narrowMode && got.Cmp(want) != 0 {
+					// try the other readings of the narrower operands
+					for mask := 1; mask < 1<<len(args); mask++ {
+						alt := append([]*big.Int(nil), vals...)
+						for i, a := range args {
+							if mask&(1<<i) != 0 && a.Width() < w {
+								alt[i] = fromSigned(toSigned(irsem.Eval(a, env), a.Width()), w)
+							}
+						}
+						if r := g.ref(alt, w, k); r.Cmp(got) == 0 {
+							want = r
+							break
+						}
+					}
+				}
 				if got.Cmp(want) != 0 {
 					t.Fatalf("%s(%s, w=%d, k=%d) evaluates to %x, reference %x (operand values %x, env seed %d)",
 						g.name, exprList(args), w, k, got, want, vals, env.Seed)
@@ -364,6 +389,9 @@ func TestC11(t *testing.T) {
 				}
 			}
 			built = append(built, e)
+			if narrowMode {
+				col.Class("sign-gadget-with-narrower-operand")
+			}
 			col.Class(g.name)
 			col.Nontrivial(cell)
 			if col.WantSample() {
